@@ -350,6 +350,15 @@ func genC09(c *Corpus, pl pools, seed uint64, tier string, failSites []string) *
 		lim = 1 << 20
 	}
 	faulty := r.chance(50) // fault-free and fault-injecting histories are separate configurations
+	// one history in 25 is a burst: a long history in which three documents out of four fail, all in the same
+	// way (the kind rotates with the seed) - what a client that keeps retrying a bad document does to a handle.
+	// A resource taken per call and not given back on one failure path shows only after many such calls.
+	burst, burstKind := seed%25 == 7, ""
+	if burst {
+		faulty = true
+		burstKind = faultKinds[int(seed/25)%len(faultKinds)]
+		n = 26 + r.intn(15)
+	}
 	var ops []Op
 	compiled := make([]bool, nH)
 	var last Op
@@ -380,9 +389,13 @@ func genC09(c *Corpus, pl pools, seed uint64, tier string, failSites []string) *
 		if i > 0 && r.chance(20) && last.Kind != "compile" && op.Kind != "compile" && last.P == op.P {
 			op.D, op.Fault = last.D, last.Fault // the same document again
 		}
-		if faulty && op.D >= 0 && r.chance(25) {
+		if faulty && op.D >= 0 && r.chance(map[bool]int{true: 75, false: 25}[burst]) {
 			dlen := c.Profiles[op.P].Data[op.D].Size
-			switch faultKinds[r.intn(len(faultKinds))] {
+			fk := faultKinds[r.intn(len(faultKinds))]
+			if burst {
+				fk = burstKind
+			}
+			switch fk {
 			case "trunc":
 				op.Fault = fmt.Sprintf("trunc:%d", r.intn(dlen+1))
 			case "trunc0":
